@@ -4,9 +4,11 @@ import (
 	"context"
 	"fmt"
 	"net"
+	"time"
 
 	"github.com/codelaboratoryltd/bng/pkg/allocator"
 	"github.com/codelaboratoryltd/bng/pkg/ebpf"
+	"github.com/codelaboratoryltd/bng/pkg/simrt"
 	"github.com/codelaboratoryltd/bng/pkg/state"
 	"github.com/codelaboratoryltd/bng/pkg/subscriber"
 	"go.uber.org/zap"
@@ -416,11 +418,26 @@ func (w *c20astore) finish()                   {}
 // subscriber.Manager: session id <-> MAC, session id <-> IP
 
 type c20alloc struct {
-	nip  int
-	used map[int]string // ip -> session id
+	s     *simrt.Sim // every call is a scheduling point on entry and on return (a remote allocator blocks)
+	nip   int
+	used  map[int]string // ip -> session id
+	used6 map[int]string // the same for the IPv6 pool (nil: no IPv6)
 }
 
+// lat: the answer of a remote allocator takes a while now and then (everything else goes on meanwhile)
+func (a *c20alloc) lat() {
+	if a.s.Choose(simrt.StNet, 4) == 3 {
+		a.s.Sleep(time.Millisecond)
+	} else {
+		a.s.Pause()
+	}
+}
+
+func c20ip6(i int) net.IP { return net.ParseIP(fmt.Sprintf("2001:db8:20::%x", 0x10+i)) }
+
 func (a *c20alloc) AllocateIPv4(ctx context.Context, s *subscriber.Session, poolID string) (net.IP, net.IPMask, net.IP, error) {
+	a.s.Pause()
+	defer a.lat()
 	for ip, id := range a.used {
 		if id == s.ID {
 			return c20ip(ip), net.CIDRMask(24, 32), net.IPv4(10, 20, 0, 1).To4(), nil
@@ -435,9 +452,26 @@ func (a *c20alloc) AllocateIPv4(ctx context.Context, s *subscriber.Session, pool
 	return nil, nil, nil, fmt.Errorf("pool exhausted")
 }
 func (a *c20alloc) AllocateIPv6(ctx context.Context, s *subscriber.Session, poolID string) (net.IP, *net.IPNet, error) {
-	return nil, nil, fmt.Errorf("no ipv6")
+	a.s.Pause()
+	defer a.lat()
+	if a.used6 == nil {
+		return nil, nil, fmt.Errorf("no ipv6")
+	}
+	for ip, id := range a.used6 {
+		if id == s.ID {
+			return c20ip6(ip), nil, nil
+		}
+	}
+	for ip := 0; ip < a.nip; ip++ {
+		if _, ok := a.used6[ip]; !ok {
+			a.used6[ip] = s.ID
+			return c20ip6(ip), nil, nil
+		}
+	}
+	return nil, nil, fmt.Errorf("pool exhausted")
 }
 func (a *c20alloc) ReleaseIPv4(ctx context.Context, ip net.IP) error {
+	a.s.Pause()
 	for i := 0; i < a.nip; i++ {
 		if c20ip(i).Equal(ip) {
 			delete(a.used, i)
@@ -445,7 +479,15 @@ func (a *c20alloc) ReleaseIPv4(ctx context.Context, ip net.IP) error {
 	}
 	return nil
 }
-func (a *c20alloc) ReleaseIPv6(ctx context.Context, ip net.IP) error { return nil }
+func (a *c20alloc) ReleaseIPv6(ctx context.Context, ip net.IP) error {
+	a.s.Pause()
+	for i := 0; i < a.nip; i++ {
+		if c20ip6(i).Equal(ip) {
+			delete(a.used6, i)
+		}
+	}
+	return nil
+}
 
 type c20mslot struct {
 	s    *subscriber.Session
@@ -467,7 +509,10 @@ func newC20submgr(c *sim.Ctx, nent int) *c20submgr {
 	if nip < 1 || nip > 3 {
 		nip = 2
 	}
-	al := &c20alloc{nip: nip, used: map[int]string{}}
+	al := &c20alloc{s: c.S, nip: nip, used: map[int]string{}}
+	if c.Case.Knob("v6", 0) == 1 {
+		al.used6 = map[int]string{} // dual stack: every assignment also asks for an IPv6 address
+	}
 	cfg := subscriber.ManagerConfig{MaxSessions: 100}
 	return &c20submgr{c: c, al: al, n: nent, m: subscriber.NewManager(cfg, nil, al, zap.NewNop())}
 }
@@ -503,9 +548,16 @@ func (w *c20submgr) exec(op sim.Op, alone bool) string {
 			return op.K + " -"
 		}
 		i := c20idx(op.Arg(1), len(w.slots))
+		if k := int(op.Arg(2)); k >= 1 && k <= len(w.slots) {
+			i = len(w.slots) - k // 1: the session created last, 2: the one before it
+		}
 		sl := w.slots[i]
 		if op.K == "assign" {
-			err := w.m.AssignAddress(ctx, sl.s.ID, "pool4", "")
+			p6 := ""
+			if w.al.used6 != nil {
+				p6 = "pool6"
+			}
+			err := w.m.AssignAddress(ctx, sl.s.ID, "pool4", p6)
 			return fmt.Sprintf("assign slot %d -> %v", i, err != nil)
 		}
 		err := w.m.TerminateSession(ctx, sl.s.ID, subscriber.TerminateUserRequest)
@@ -571,17 +623,29 @@ func (w *c20submgr) check(after string) {
 			c.Fail("lookups-agree", "submgr/by-mac/stale/after-"+after, "GetSessionByMAC(MAC #%d) returns slot %d, the live session of that MAC is slot %d", mac, w.slotOf(s), owner)
 		}
 	}
-	for ip := 0; ip < w.al.nip; ip++ {
+	nfam := 1
+	if w.al.used6 != nil {
+		nfam = 2
+	}
+	for fip := 0; fip < nfam*w.al.nip; fip++ {
+		ip, fam := fip%w.al.nip, fip/w.al.nip
+		addr := c20ip(ip)
+		held := func(s *subscriber.Session) net.IP { return s.IPv4 }
+		if fam == 1 {
+			addr = c20ip6(ip)
+			held = func(s *subscriber.Session) net.IP { return s.IPv6 }
+			ip += 100 // numbering of the messages and anomaly keys: #100.. are the IPv6 addresses
+		}
 		owner := -1
 		for i, sl := range w.slots {
-			if sl.live && sl.s.IPv4 != nil && sl.s.IPv4.Equal(c20ip(ip)) {
+			if sl.live && held(sl.s) != nil && held(sl.s).Equal(addr) {
 				if owner >= 0 {
 					c.Fail("unique", "submgr/ip/two-sessions/after-"+after, "slots %d and %d are both live with address #%d", owner, i, ip)
 				}
 				owner = i
 			}
 		}
-		s, ok := w.m.GetSessionByIP(c20ip(ip))
+		s, ok := w.m.GetSessionByIP(addr)
 		if ((ok && s == nil) || (!ok && owner >= 0) || (ok && w.slotOf(s) != owner)) && !w.an.fresh(fmt.Sprintf("byip/%d/%v/%v", ip, ok, s == nil)) {
 			continue
 		}
